@@ -1,3 +1,4 @@
+import re
 """C07 -- JSON parsing is all-or-nothing (failure protocol of the three descent functions)."""
 from qlib import dataflow, astq
 from qlib.model import AnalysisBroken
@@ -26,6 +27,8 @@ META["explanation"] += " " + '(SIGN-unit) a raw code unit is ordered against a c
 PARSER = "Qentem::JSON::JSONParser::"
 DESCENT = ("parseValue", "parseObject", "parseArray")
 
+
+META["explanation"] += " " + "(PR-quote) abstract paths through parseValue's string arm: every path from the UnEscape call to the return of the string has found the unit at (returned length - 1) equal to the quote, and a path between that test and the return looks for a backslash in front of it (UnEscape also returns at the end of the text). (PR-scratch, shared with C06) every path of JSONParser::Parse clears the scratch stream before parseValue."
 
 def cursor_and_bound(fn):
     """(by-ref unsigned cursor parameter, bound parameter) of a descent function"""
@@ -86,6 +89,46 @@ def is_unit_test(fn, cond):
     return None
 
 
+def rule_scratch(ctx, m):
+    """PR-scratch (shared with C06): the caller-supplied scratch stream is emptied on every path before parseValue runs"""
+    scratch = Rule("PR-scratch", "JSONParser::Parse empties the scratch stream before parsing", floor=1)
+    # PR-scratch: the caller-supplied scratch stream is emptied before anything is unescaped into it (a rejected parse
+    # leaves its partial text behind)
+    pf = [g for g in m.fns(PARSER + "Parse") if not g.inst]
+    for g in pf:
+        ctx.note_fn(g)
+        if not g.cfg:
+            continue
+        calls_ = [(x, g.call_simple_name(x) or "") for x in g.walk() if g.nodes[x]["k"] in ("CallExpr", "CXXMemberCallExpr")]
+        pv = [x for x, n_ in calls_ if n_ == "parseValue"]
+        clears = [y for y, n_ in calls_ if n_ == "Clear" and g.call_receiver(y) is not None and
+                  g.nodes[g.strip(g.call_receiver(y))].get("n") == "stream"]
+        for x in pv:
+            tb = dataflow.block_of(g, x)
+            if tb is None:
+                raise AnalysisBroken("JSONParser::Parse: parseValue call is not a CFG element")
+            # blocks in which a Clear precedes (or, in another block, simply occurs): cut them out and ask whether the
+            # parseValue block is still reachable from the entry
+            cut = set()
+            for y in clears:
+                yb = dataflow.block_of(g, y)
+                if yb is None:
+                    continue
+                if yb == tb:
+                    els = [e.get("n") for e in g.blocks()[tb]["el"]]
+                    if els.index(y) < els.index(x):
+                        cut.add("same")
+                else:
+                    cut.add(yb)
+            if "same" in cut:
+                ok = True
+            else:
+                seen = dataflow.reachable(g, avoid_edge=lambda b, s_, kind, payload: b["id"] in cut)
+                ok = tb not in seen and g.cfg["entry"] not in cut or (g.cfg["entry"] in cut)
+            scratch.ob(g.q, g.text(x), ok, "the scratch stream must be cleared on every path before parseValue runs", g.loc(x))
+    return scratch
+
+
 def run(ctx):
     m = ctx.pattern()
     table = ContractTable(CONTRACTS)
@@ -93,6 +136,7 @@ def run(ctx):
     fail = Rule("PR-fail", "every failing exit of the descent functions establishes the sentinel offset >= length", floor=4)
     closed = Rule("PR-closed", "a container is returned without Reset() only right after the closing-bracket test", floor=4)
     unesc = Rule("PR-unescape", "UnEscape returns 0 on bad escapes/raw control characters; callers treat 0 as failure", floor=5)
+    quote = Rule("PR-quote", "a string is accepted only when the unit before the position UnEscape returned is the closing quote", floor=2)
 
     # ---------------- PR-gate
     parse = m.fn(PARSER + "Parse", nparams=3)
@@ -298,14 +342,160 @@ def run(ctx):
             ok = False
             if holder is not None:
                 for i in astq.nodes_of(f, "IfStmt"):
-                    cn = f.nodes[f.strip(f.nodes[i]["cond"])]
+                    # the condition is `len != 0` or a conjunction whose FIRST atom is that test (the later atoms are
+                    # evaluated only when it held)
+                    atoms = []
+
+                    def conj(x):
+                        x = f.strip(x)
+                        nn = f.nodes[x]
+                        if nn["k"] == "BinaryOperator" and nn["op"] == "&&":
+                            conj(nn["ch"][0])
+                            conj(nn["ch"][1])
+                        else:
+                            atoms.append(x)
+                    conj(f.nodes[i]["cond"])
+                    cn = f.nodes[atoms[0]]
                     if cn["k"] == "BinaryOperator" and cn["op"] == "!=" and \
                             f.nodes[f.strip(cn["ch"][0])].get("d") == holder["d"] and f.const_value(cn["ch"][1]) == 0:
-                        # every use of the holder other than the test lies inside the then-branch
+                        # every use of the holder other than the test lies inside the then-branch or a later atom
                         then = set(f.walk(f.nodes[i]["then"]))
+                        guarded = set(f.walk(atoms[0]))
+                        for a in atoms[1:]:
+                            guarded |= set(f.walk(a))
                         uses = [u for u in f.walk() if f.nodes[u]["k"] == "DeclRefExpr" and f.nodes[u].get("d") == holder["d"]]
-                        ok = all(u in then or u in set(f.walk(f.nodes[i]["cond"])) for u in uses)
+                        ok = all(u in then or u in guarded for u in uses)
             unesc.ob(f.q, f.text(c), ok, "length returned by UnEscape must be used only under `len != 0`", f.loc(c))
+    # ---------------- PR-quote (abstract paths through parseValue's string arm)
+    # UnEscape also returns (the whole length) when the text ENDS inside the string, so a non-zero result does not say the
+    # string was closed.  On every path from the UnEscape call to the `return ValueT{String{...}}` of the same arm the unit
+    # at (returned length - 1) of the scanned text has been found equal to the quote; and, because `\"` is not a closing
+    # quote, some path between that test and the return looks at a unit for the backslash.  State per path: quote found,
+    # backslash looked at, the known values of the bool locals (a flag-guarded return is followed only where the flag can
+    # be true), which index locals still hold their initialiser.
+    tail_rets = [x for x in astq.nodes_of(ue, "ReturnStmt")]
+    ends_nonzero = bool(tail_rets) and ue.const_value(ue.nodes[tail_rets[-1]].get("val", -1)) != 0
+    f = m.fn(PARSER + "parseValue")
+    if not f.cfg:
+        raise AnalysisBroken("parseValue has no CFG")
+    if not ends_nonzero:
+        quote.ob(f.q, "UnEscape tail", True, "UnEscape no longer returns a length at the end of the text: nothing to test in the caller", ue.loc(tail_rets[-1]) if tail_rets else "")
+    for c in ([] if not ends_nonzero else astq.calls(f, "UnEscape")):
+        holder = None
+        for st_ in astq.nodes_of(f, "DeclStmt"):
+            for d in f.nodes[st_]["decls"]:
+                if d.get("init", -1) >= 0 and c in set(f.walk(d["init"])):
+                    holder = d
+        arg0 = f.nodes[f.strip_casts(f.call_args(c)[0])]
+        if holder is None or arg0.get("d") is None:
+            quote.ob(f.q, f.text(c), False, "the result of UnEscape is not held in a local / its text argument is not a local", f.loc(c))
+            continue
+        # the enclosing switch arm: sinks are its returns that build a string value
+        par = f.parents()
+        arm = c
+        while arm in par and f.nodes[arm]["k"] not in ("CaseStmt", "DefaultStmt"):
+            arm = par[arm]
+        region = set(f.walk(arm))
+        sinks = set(x for x in region if f.nodes[x]["k"] == "ReturnStmt" and "String<" in f.text(x))
+        if not sinks:
+            raise AnalysisBroken("parseValue: the string arm has no `return ValueT{String{...}}`")
+        last_form = re.compile(r"^\(?%s-(fcast<[^>]*>\(\{1\}\)|1U?|SizeT\{1\})\)?$" % re.escape(holder["n"]))
+        idx_locals = set(d["d"] for st_ in astq.nodes_of(f, "DeclStmt") for d in f.nodes[st_]["decls"]
+                         if "d" in d and d.get("init", -1) >= 0 and last_form.match(re.sub(r"\s+", "", f.text(d["init"]))))
+        bool_locals = set(d["d"] for st_ in astq.nodes_of(f, "DeclStmt") for d in f.nodes[st_]["decls"] if "d" in d and d.get("tk") == "bool" and st_ in region)
+
+        def unit_cmp(x, what):
+            """x is `str[i] ==/!= <what>`: returns (op, index node) else None"""
+            n_ = f.nodes[f.strip(x)]
+            if n_["k"] != "BinaryOperator" or n_["op"] not in ("==", "!="):
+                return None
+            for a_, b_ in ((n_["ch"][0], n_["ch"][1]), (n_["ch"][1], n_["ch"][0])):
+                an = f.nodes[f.strip_casts(a_)]
+                if an["k"] == "ArraySubscriptExpr" and f.nodes[f.strip_casts(an["ch"][0])].get("d") == arg0["d"] and f.text(b_).endswith(what):
+                    return (n_["op"], an["ch"][1])
+            return None
+        blocks = f.blocks()
+        cb = dataflow.block_of(f, c)
+        if cb is None:
+            raise AnalysisBroken("parseValue: the UnEscape call is not a CFG element")
+        work = [(cb, False, False, frozenset(), frozenset(idx_locals | {holder["d"]}), True)]
+        seen = set()
+        bad, good_bs, reached = {}, set(), set()
+        steps = 0
+        while work and steps < 100000:
+            steps += 1
+            bid, q, bs, flags, clean, first = work.pop()
+            key = (bid, q, bs, flags, clean, first)
+            if key in seen:
+                continue
+            seen.add(key)
+            fl = dict(flags)
+            cl = set(clean)
+            started = not first
+            for e in blocks[bid]["el"]:
+                x = e.get("n")
+                if not isinstance(x, int) or e.get("k"):
+                    continue
+                if not started:
+                    started = (x == c)
+                    continue
+                n_ = f.nodes[x]
+                if n_["k"] == "DeclStmt":
+                    for d in n_["decls"]:
+                        if d.get("d") in bool_locals and d.get("init", -1) >= 0:
+                            v = f.const_value(d["init"])
+                            fl[d["d"]] = None if v is None else bool(v)
+                tgt = None
+                if n_["k"] == "UnaryOperator" and n_["op"] in ("++", "--"):
+                    tgt = n_["ch"][0]
+                elif n_["k"] == "CompoundAssignOperator" or (n_["k"] == "BinaryOperator" and n_["op"] == "="):
+                    tgt = n_["ch"][0]
+                if tgt is not None:
+                    td = f.nodes[f.strip(tgt)].get("d")
+                    cl.discard(td)
+                    if td == holder["d"]:
+                        cl.clear()
+                    if td in bool_locals:
+                        v = f.const_value(n_["ch"][1]) if n_["k"] == "BinaryOperator" else None
+                        fl[td] = None if v is None else bool(v)
+                if x in sinks:
+                    reached.add(x)
+                    if not q:
+                        bad.setdefault(x, True)
+                    if q and bs:
+                        good_bs.add(x)
+            for (s_, kind, payload) in dataflow.successors(f, blocks[bid]):
+                q2, bs2 = q, bs
+                if kind in ("true", "false") and payload is not None:
+                    pn = f.nodes[f.strip(payload)]
+                    neg = False
+                    while pn["k"] == "UnaryOperator" and pn["op"] == "!":
+                        neg = not neg
+                        pn = f.nodes[f.strip(pn["ch"][0])]
+                    if pn["k"] == "DeclRefExpr" and pn.get("d") in fl and fl[pn["d"]] is not None:
+                        val = fl[pn["d"]] != neg
+                        if val != (kind == "true"):
+                            continue
+                    uq = unit_cmp(payload, "QuoteChar")
+                    if uq is not None and ((uq[0] == "==") == (kind == "true")):
+                        ixn = f.nodes[f.strip_casts(uq[1])]
+                        if (last_form.match(re.sub(r"\s+", "", f.text(uq[1]))) and holder["d"] in cl) or \
+                                (ixn["k"] == "DeclRefExpr" and ixn.get("d") in cl and ixn.get("d") != holder["d"]):
+                            q2 = True
+                    if unit_cmp(payload, "BSlashChar") is not None and q:
+                        bs2 = True
+                work.append((s_, q2, bs2, frozenset(fl.items()), frozenset(cl), False))
+        if steps >= 100000:
+            raise AnalysisBroken("parseValue: the abstract paths of the string arm were not exhausted")
+        if not reached:
+            raise AnalysisBroken("parseValue: the string return is not reachable from the UnEscape call in the CFG")
+        for x in sorted(sinks):
+            quote.ob(f.q, f.text(x)[:60], x not in bad, "on every path from UnEscape the unit at (returned length - 1) was found to be the quote" if x not in bad else
+                     "a path from `%s` reaches this return without the unit at (%s - 1) having been compared with the quote: UnEscape also "
+                     "returns at the end of the text, so \"abc is accepted as a complete string" % (f.text(c)[:40], holder["n"]), f.loc(x))
+            quote.ob(f.q, f.text(x)[:60] + " [escaped quote]", x in good_bs or x in bad, "a path between the quote test and the return looks for a backslash in front of the quote" if x in good_bs or x in bad else
+                     "no path between the quote test and this return compares a unit with the backslash: the text \"abc\\\" ends in an escaped quote and is accepted", f.loc(x))
+    scratch = rule_scratch(ctx, m)
     # ---------------- PR-forward: the public overloads hand the caller's text and length on unchanged
     fwd = Rule("PR-forward", "the public JSON::Parse overloads forward the caller's (content, length) unchanged", floor=3)
     for g in m.fns("Qentem::JSON::Parse"):
@@ -343,5 +533,5 @@ def run(ctx):
         fwd.ob(g.sig, g.text(cs[0])[:70], ok_c and ok_l, why, g.loc(cs[0]))
     from rules.common import rule_narrow_units
     from rules.common import rule_sign_unit
-    return [gate, fail, closed, unesc, fwd, rule_narrow_units(ctx, m, ["JSON.hpp", "JSONUtils.hpp", "StringUtils.hpp"]),
+    return [gate, fail, closed, unesc, quote, scratch, fwd, rule_narrow_units(ctx, m, ["JSON.hpp", "JSONUtils.hpp", "StringUtils.hpp"]),
             rule_sign_unit(ctx, m, ["JSON.hpp", "JSONUtils.hpp", "Digit.hpp", "StringUtils.hpp", "Unicode.hpp"])]
